@@ -207,7 +207,12 @@ def batch_check(ctx, c, outs):
         from orix.vector import Miller
         with warnings.catch_warnings():
             warnings.simplefilter("ignore")
-            m = Miller(xyz=np.array(vs[:nn], float).reshape(2, nn // 2, 3), phase=Phase(point_group="1"))
+            # a lattice that is not orthonormal (hexagonal axes for the trigonal / hexagonal groups): the projection acts on
+            # the Cartesian vectors whatever the lattice coordinates are
+            from diffpy.structure import Lattice, Structure
+            lat = Lattice(3, 3, 5, 90, 90, 120) if c.get("basis") == "hex" else Lattice(2.9, 3.6, 4.1, 90, 90, 90)
+            m = Miller(xyz=np.array(vs[:nn], float).reshape(2, nn // 2, 3), phase=Phase(point_group="1", structure=Structure(lattice=lat)))
+            m.coordinate_format = ["uvw", "hkl"][nn % 4 // 2]
             got = np.asarray(m.in_fundamental_sector(G).data, float)
         want = whole[:nn].reshape(2, nn // 2, 3)
         if got.shape != want.shape:
